@@ -7,9 +7,21 @@ namespace StoneVerif.Rt.Compat
 open StoneVerif.Rt
 
 /-- primitives: `make_stone_friendly` without validation does not look at the environment -/
+theorem knownDoc_void (A : Env) (fl : Flags) (j : JVal) : knownDoc A (.void fl) j = isNullJ j := by
+  unfold knownDoc; cases j <;> rfl
+
+theorem knownDoc_list_arr (A : Env) (fl : Flags) (item : PTy) (a b : Option Nat) (xs : List JVal) :
+    knownDoc A (.list fl item a b) (.arr xs) = knownList A item xs := by
+  unfold knownDoc; rfl
+
+theorem knownDoc_map_obj (A : Env) (fl : Flags) (kt vt : PTy) (kvs : List (String × JVal)) :
+    knownDoc A (.map fl kt vt) (.obj kvs) = knownVals A vt kvs := by
+  unfold knownDoc; rfl
+
 theorem msf_sub (E : Ext) (A B : Env) {ρ : Rho} {tA tB : PTy} (h : tySub ρ tA tB = true) (hp : isPrimTy tB = true)
-    (sB : Bool) (j : JVal) (w : PyVal) (hd : makeStoneFriendly E B [] sB false tB j = .ok w) :
-    makeStoneFriendly E A [] false false tA j = .ok w := by
+    (sA sB : Bool) (j : JVal) (w : PyVal) (hk : sA = true → knownDoc A tA j = true)
+    (hd : makeStoneFriendly E B [] sB false tB j = .ok w) :
+    makeStoneFriendly E A [] sA false tA j = .ok w := by
   cases tB <;> simp only [isPrimTy, Bool.false_eq_true] at hp <;> cases tA <;>
     simp only [tySub, Bool.false_eq_true, Bool.and_eq_true, beq_iff_eq] at h
   case ts.ts =>
@@ -17,7 +29,8 @@ theorem msf_sub (E : Ext) (A B : Env) {ρ : Rho} {tA tB : PTy} (h : tySub ρ tA 
     simpa [makeStoneFriendly] using hd
   case void.void =>
     simp only [makeStoneFriendly] at hd ⊢
-    cases sB <;> cases j <;> simp_all [verr]
+    rw [knownDoc_void] at hk
+    cases sA <;> cases sB <;> cases j <;> simp_all [verr, isNullJ]
   all_goals (simpa [makeStoneFriendly] using hd)
 
 theorem view_list_list (ρ : Rho) (A : Env) (fl : Flags) (item : PTy) (a b : Option Nat) (xs : List PyVal) :
@@ -31,9 +44,10 @@ theorem view_map_dict (ρ : Rho) (A : Env) (fl : Flags) (kt vt : PTy) (kvs : Lis
 mutual
 /-- the simulation, for every document -/
 theorem decode_sub (E : Ext) {ρ : Rho} {A B : Env} (cx : Ctx ρ A B) :
-    ∀ (j : JVal) (tA tB : PTy) (sB : Bool) (w : PyVal), tySub ρ tA tB = true → tyWF A tA = true →
-      decode E B [] sB tB j = .ok w → decode E A [] false tA j = .ok (view ρ A tA w)
-  | j, tA, tB, sB, w, h, hw, hd => by
+    ∀ (j : JVal) (tA tB : PTy) (sA sB : Bool) (w : PyVal), tySub ρ tA tB = true → tyWF A tA = true →
+      (sA = true → knownDoc A tA j = true) →
+      decode E B [] sB tB j = .ok w → decode E A [] sA tA j = .ok (view ρ A tA w)
+  | j, tA, tB, sA, sB, w, h, hw, hk, hd => by
     have hn := tySub_nullable h
     by_cases hnull : (tB.flags.nullable && isNullJ j) = true
     · -- nullable, null
@@ -42,14 +56,14 @@ theorem decode_sub (E : Ext) {ρ : Rho} {A B : Env} (cx : Ctx ρ A B) :
       simp only [isNullJ, Bool.and_true] at hnull
       rw [decode_null_nullable E B sB tB hnull] at hd
       cases hd
-      rw [decode_null_nullable E A false tA (hn ▸ hnull), view_none]
+      rw [decode_null_nullable E A sA tA (hn ▸ hnull), view_none]
     · simp only [Bool.not_eq_true] at hnull
       by_cases hp : isPrimTy tB = true
       · have hpa : isPrimTy tA = true := by rw [tySub_isPrim h]; exact hp
         rw [decode_prim E B sB hp, hnull] at hd
-        rw [decode_prim E A false hpa, hn, hnull]
+        rw [decode_prim E A sA hpa, hn, hnull]
         simp only [Bool.false_eq_true, if_false] at hd ⊢
-        have := msf_sub E A B h hp sB j w hd
+        have := msf_sub E A B h hp sA sB j w hk hd
         rw [this, view_prim ρ A hpa]
       · cases tA <;> cases tB <;> simp only [tySub, Bool.false_eq_true, Bool.and_eq_true, beq_iff_eq] at h <;>
           simp only [isPrimTy, not_true_eq_false] at hp
@@ -64,7 +78,8 @@ theorem decode_sub (E : Ext) {ρ : Rho} {A B : Env} (cx : Ctx ρ A B) :
             | ok ys =>
               simp only [hl, Except.map, Except.ok.injEq] at hd
               subst hd
-              rw [decodeList_sub E cx xs ia ib sB ys hi hwi hl, view_list_list]
+              rw [knownDoc_list_arr] at hk
+              rw [decodeList_sub E cx xs ia ib sA sB ys hi hwi hk hl, view_list_list]
               rfl
           | _ => unfold decode at hd; simp_all [PTy.flags, verr, isNullJ]
         case map.map f ka va g kb vb =>
@@ -79,7 +94,8 @@ theorem decode_sub (E : Ext) {ρ : Rho} {A B : Env} (cx : Ctx ρ A B) :
             | ok ys =>
               simp only [hl, Except.map, Except.ok.injEq] at hd
               subst hd
-              rw [decodeMap_sub E cx kvs va vb sB ys hvt hwv hl, view_map_dict]
+              rw [knownDoc_map_obj] at hk
+              rw [decodeMap_sub E cx kvs va vb sA sB ys hvt hwv hk hl, view_map_dict]
               rfl
           | _ => unfold decode at hd; simp_all [PTy.flags, verr, isNullJ]
         case struct.struct f c g c' =>
@@ -100,7 +116,7 @@ theorem decode_sub (E : Ext) {ρ : Rho} {A B : Env} (cx : Ctx ρ A B) :
               simp [view_struct_struct, viewSlots, orderSlots_nil]
             · simp [hdf, verr] at hd
           | obj kvs =>
-            exact decode_struct_sub E cx hr hsa kvs sB w (members_sub E cx kvs sB) hd
+            exact decode_struct_sub E cx hr hsa kvs sA sB w (members_sub E cx kvs sA sB) hk hd
           | _ => unfold decode at hd; simp_all [PTy.flags, verr, isNullJ]
         case tree.tree f c g c' =>
           obtain ⟨hfl, hr⟩ := h
@@ -109,37 +125,42 @@ theorem decode_sub (E : Ext) {ρ : Rho} {A B : Env} (cx : Ctx ρ A B) :
             simp only [tyWF, hsa] at hw; exact hw
           cases j with
           | obj kvs =>
-            exact decode_tree_sub E cx hr hsa hta kvs sB w (members_sub E cx kvs sB) hd
+            exact decode_tree_sub E cx hr hsa hta kvs sA sB w (members_sub E cx kvs sA sB) hk hd
           | _ => unfold decode at hd; simp_all [PTy.flags, verr, isNullJ]
         case union.union f c g c' =>
           obtain ⟨hfl, hr⟩ := h
           obtain ⟨ua, hua⟩ := tyWF_union hw
           cases j with
           | obj kvs =>
-            exact decode_union_sub E cx hr hua (.obj kvs) sB w (by simpa [PTy.flags] using hnull)
-              (fun kvs' hk => by cases hk; exact members_sub E cx kvs sB) hd
+            exact decode_union_sub E cx hr hua (.obj kvs) sA sB w (by simpa [PTy.flags] using hnull)
+              (fun kvs' hk' => by cases hk'; exact members_sub E cx kvs sA sB) hk hd
           | str s =>
-            exact decode_union_sub E cx hr hua (.str s) sB w (by simpa [PTy.flags] using hnull)
-              (fun kvs' hk => by cases hk) hd
+            exact decode_union_sub E cx hr hua (.str s) sA sB w (by simpa [PTy.flags] using hnull)
+              (fun kvs' hk' => by cases hk') hk hd
           | null =>
-            exact decode_union_sub E cx hr hua .null sB w (by simpa [PTy.flags] using hnull)
-              (fun kvs' hk => by cases hk) hd
+            exact decode_union_sub E cx hr hua .null sA sB w (by simpa [PTy.flags] using hnull)
+              (fun kvs' hk' => by cases hk') hk hd
           | bool b =>
-            exact decode_union_sub E cx hr hua (.bool b) sB w (by simp [isNullJ]) (fun kvs' hk => by cases hk) hd
+            exact decode_union_sub E cx hr hua (.bool b) sA sB w (by simp [isNullJ]) (fun kvs' hk' => by cases hk') hk hd
           | int n =>
-            exact decode_union_sub E cx hr hua (.int n) sB w (by simp [isNullJ]) (fun kvs' hk => by cases hk) hd
+            exact decode_union_sub E cx hr hua (.int n) sA sB w (by simp [isNullJ]) (fun kvs' hk' => by cases hk') hk hd
           | flt x =>
-            exact decode_union_sub E cx hr hua (.flt x) sB w (by simp [isNullJ]) (fun kvs' hk => by cases hk) hd
+            exact decode_union_sub E cx hr hua (.flt x) sA sB w (by simp [isNullJ]) (fun kvs' hk' => by cases hk') hk hd
           | arr xs =>
-            exact decode_union_sub E cx hr hua (.arr xs) sB w (by simp [isNullJ]) (fun kvs' hk => by cases hk) hd
+            exact decode_union_sub E cx hr hua (.arr xs) sA sB w (by simp [isNullJ]) (fun kvs' hk' => by cases hk') hk hd
 theorem decodeList_sub (E : Ext) {ρ : Rho} {A B : Env} (cx : Ctx ρ A B) :
-    ∀ (xs : List JVal) (tA tB : PTy) (sB : Bool) (ys : List PyVal), tySub ρ tA tB = true → tyWF A tA = true →
-      decodeList E B [] sB tB xs = .ok ys → decodeList E A [] false tA xs = .ok (viewList ρ A tA ys)
-  | [], tA, tB, sB, ys, _, _, hd => by
+    ∀ (xs : List JVal) (tA tB : PTy) (sA sB : Bool) (ys : List PyVal), tySub ρ tA tB = true → tyWF A tA = true →
+      (sA = true → knownList A tA xs = true) →
+      decodeList E B [] sB tB xs = .ok ys → decodeList E A [] sA tA xs = .ok (viewList ρ A tA ys)
+  | [], tA, tB, sA, sB, ys, _, _, _, hd => by
     simp only [decodeList, Except.ok.injEq] at hd
     subst hd
     simp [decodeList, viewList]
-  | x :: xs, tA, tB, sB, ys, h, hw, hd => by
+  | x :: xs, tA, tB, sA, sB, ys, h, hw, hk, hd => by
+    have hk1 : sA = true → knownDoc A tA x = true := fun hs => by
+      have := hk hs; simp only [knownList, Bool.and_eq_true] at this; exact this.1
+    have hk2 : sA = true → knownList A tA xs = true := fun hs => by
+      have := hk hs; simp only [knownList, Bool.and_eq_true] at this; exact this.2
     simp only [decodeList, bind, Except.bind] at hd
     cases h1 : decode E B [] sB tB x with
     | error e => simp [h1] at hd
@@ -150,17 +171,21 @@ theorem decodeList_sub (E : Ext) {ρ : Rho} {A B : Env} (cx : Ctx ρ A B) :
       | ok ys' =>
         simp only [h2, pure, Except.pure, Except.ok.injEq] at hd
         subst hd
-        simp only [decodeList, bind, Except.bind, decode_sub E cx x tA tB sB y h hw h1,
-          decodeList_sub E cx xs tA tB sB ys' h hw h2, pure, Except.pure, viewList]
+        simp only [decodeList, bind, Except.bind, decode_sub E cx x tA tB sA sB y h hw hk1 h1,
+          decodeList_sub E cx xs tA tB sA sB ys' h hw hk2 h2, pure, Except.pure, viewList]
 theorem decodeMap_sub (E : Ext) {ρ : Rho} {A B : Env} (cx : Ctx ρ A B) :
-    ∀ (kvs : List (String × JVal)) (tA tB : PTy) (sB : Bool) (ys : List (PyVal × PyVal)), tySub ρ tA tB = true →
-      tyWF A tA = true → decodeMap E B [] sB tB kvs = .ok ys →
-      decodeMap E A [] false tA kvs = .ok (viewDict ρ A tA ys)
-  | [], tA, tB, sB, ys, _, _, hd => by
+    ∀ (kvs : List (String × JVal)) (tA tB : PTy) (sA sB : Bool) (ys : List (PyVal × PyVal)), tySub ρ tA tB = true →
+      tyWF A tA = true → (sA = true → knownVals A tA kvs = true) → decodeMap E B [] sB tB kvs = .ok ys →
+      decodeMap E A [] sA tA kvs = .ok (viewDict ρ A tA ys)
+  | [], tA, tB, sA, sB, ys, _, _, _, hd => by
     simp only [decodeMap, Except.ok.injEq] at hd
     subst hd
     simp [decodeMap, viewDict]
-  | (k, x) :: rest, tA, tB, sB, ys, h, hw, hd => by
+  | (k, x) :: rest, tA, tB, sA, sB, ys, h, hw, hk, hd => by
+    have hk1 : sA = true → knownDoc A tA x = true := fun hs => by
+      have := hk hs; simp only [knownVals, Bool.and_eq_true] at this; exact this.1
+    have hk2 : sA = true → knownVals A tA rest = true := fun hs => by
+      have := hk hs; simp only [knownVals, Bool.and_eq_true] at this; exact this.2
     simp only [decodeMap, bind, Except.bind] at hd
     cases h1 : decode E B [] sB tB x with
     | error e => simp [h1] at hd
@@ -171,16 +196,18 @@ theorem decodeMap_sub (E : Ext) {ρ : Rho} {A B : Env} (cx : Ctx ρ A B) :
       | ok ys' =>
         simp only [h2, pure, Except.pure, Except.ok.injEq] at hd
         subst hd
-        simp only [decodeMap, bind, Except.bind, decode_sub E cx x tA tB sB y h hw h1,
-          decodeMap_sub E cx rest tA tB sB ys' h hw h2, pure, Except.pure, viewDict]
+        simp only [decodeMap, bind, Except.bind, decode_sub E cx x tA tB sA sB y h hw hk1 h1,
+          decodeMap_sub E cx rest tA tB sA sB ys' h hw hk2 h2, pure, Except.pure, viewDict]
 theorem members_sub (E : Ext) {ρ : Rho} {A B : Env} (cx : Ctx ρ A B) :
-    ∀ (kvs : List (String × JVal)) (sB : Bool), MembersIH E ρ A B sB kvs
-  | [], sB => by
-    intro tblA tblB k ftA ftB _ _ _ _
+    ∀ (kvs : List (String × JVal)) (sA sB : Bool), MembersIH E ρ A B sA sB kvs
+  | [], sA, sB => by
+    intro tblA tblB k ftA ftB _ _ _ _ _
     simp [ChildRel, decodeMembers, childLookup]
-  | (k0, x) :: rest, sB => by
-    intro tblA tblB k ftA ftB hfa hfb hty hw
-    have ih := members_sub E cx rest sB tblA tblB k ftA ftB hfa hfb hty hw
+  | (k0, x) :: rest, sA, sB => by
+    intro tblA tblB k ftA ftB hkm hfa hfb hty hw
+    have hkm2 : sA = true → knownMembers A tblA rest = true := fun hs => by
+      have := hkm hs; simp only [knownMembers, Bool.and_eq_true] at this; exact this.2
+    have ih := members_sub E cx rest sA sB tblA tblB k ftA ftB hkm2 hfa hfb hty hw
     unfold ChildRel at ih ⊢
     by_cases hk : k0 = k
     · subst hk
@@ -189,10 +216,14 @@ theorem members_sub (E : Ext) {ρ : Rho} {A B : Env} (cx : Ctx ρ A B) :
       | error e => trivial
       | ok v =>
         simp only []
-        rw [decode_sub E cx x ftA ftB sB v hty hw hdx]
+        have hkx : sA = true → knownDoc A ftA x = true := fun hs => by
+          have := hkm hs
+          simp only [knownMembers, hfa, Bool.and_eq_true] at this
+          exact this.1
+        rw [decode_sub E cx x ftA ftB sA sB v hty hw hkx hdx]
     · have hne : (k0 == k) = false := by simpa using hk
-      have hA : childLookup k (decodeMembers E A [] false tblA ((k0, x) :: rest)) =
-          childLookup k (decodeMembers E A [] false tblA rest) := by
+      have hA : childLookup k (decodeMembers E A [] sA tblA ((k0, x) :: rest)) =
+          childLookup k (decodeMembers E A [] sA tblA rest) := by
         simp only [decodeMembers]
         split <;> simp [childLookup, hne]
       have hB : childLookup k (decodeMembers E B [] sB tblB ((k0, x) :: rest)) =
